@@ -321,7 +321,13 @@ func (e editor) list(from *Selection, to *Selection, m *meta.List, new bool, str
 			return fmt.Errorf("could not create destination list node %s", to.Path)
 		}
 		toChild.Path.Key = key
-		if err = e.enter(fromChild, toChild, newItem, editUpsert, false, false); err != nil {
+		// below an entry inserts behave as upserts, but an update must still
+		// not create what is missing
+		itemStrategy := editUpsert
+		if strategy == editUpdate {
+			itemStrategy = editUpdate
+		}
+		if err = e.enter(fromChild, toChild, newItem, itemStrategy, false, false); err != nil {
 			return err
 		}
 
